@@ -22,8 +22,17 @@ def known_by_switch() -> Dict[str, dict]:
     return {k["switch"]: k for k in load_known() if k.get("status") == "known" and k.get("switch")}
 
 
-def _sched_of(log: List[list]) -> List[int]:
-    return [ev[1] for ev in log]
+def _sched_of(log: List[list], mode: str = "thread") -> List[int]:
+    """The scheduler's decisions encoded in a log: thread-like = who emits each event; asyncio-like = who is
+    started / resumed / cancelled (a task then runs until it suspends or ends)."""
+    if mode != "async":
+        return [ev[1] for ev in log]
+    out, started = [], set()
+    for ev in log:
+        if ev[0] in ("res", "throw") or ev[1] not in started:
+            out.append(ev[1])
+            started.add(ev[1])
+    return out
 
 
 def _outcome_stats(logs: Dict[int, List[list]]) -> Dict[str, int]:
@@ -81,9 +90,9 @@ def call_unit(res: CheckResult, name: str, progs: List[dict], ic: Any, mode: str
             behs = rng.sample(behs, max_behaviours_per_prog)
         for exp in behs:
             expn = [C.norm_expected(e) for e in exp]
-            act, rt = C.run_impl(p, ic, schedule=_sched_of(expn) if mode != "single" else None, mode=mode, rng=rng)
+            act, rt = C.run_impl(p, ic, schedule=_sched_of(expn, mode) if mode != "single" else None, mode=mode, rng=rng)
             nrun += 1
-            if act != expn:
+            if not C.same_log(expn, act):
                 mism.append({"pid": p["pid"], "prog": p, "log": act, "expected": expn})
             elif len(res.samples) < 3 and (nrun % 997 == 1):
                 res.samples.append({"unit": name, "program": p, "events": act[:40]})
@@ -165,3 +174,79 @@ def random_unit(res: CheckResult, name: str, progs: List[dict], ic: Any, mode: s
         res.samples.append({"unit": name, "program": items[0]["prog"], "events": items[0]["log"][:40]})
     res.add_unit(name, programs=len(progs), traces_validated=len(items), rejected=rejected, mode=mode,
                  trace_states=rv.distinct)
+
+
+def conc_unit(res: CheckResult, name: str, progs: List[dict], ic: Any, mode: str, nsim: int,
+              rng: Optional[random.Random] = None) -> None:
+    """Concurrent family: every interleaving model-checked (history hidden by a VIEW), sampled schedules replayed."""
+    rng = rng or random.Random(res.seed)
+    progs = F.number(progs)
+    async_sched = (mode == "async")
+    cur = current_switches()
+    r_off, _ = C.model_check(progs, C.ALL_OFF, async_sched, None, emit_logs=False, view_no_log=True)
+    if not r_off.ok:
+        raise MachineryError("unit {}: the switch-off specification fails its own obligation {} / {}".format(
+            name, r_off.violated, (r_off.error or "")[:1500]))
+    res.states += r_off.distinct
+    res.transitions += r_off.states
+    if cur != C.ALL_OFF:
+        r_chk, _ = C.model_check(progs, cur, async_sched, None, emit_logs=False, view_no_log=True)
+        if r_chk.violated:
+            for sw, k in known_by_switch().items():
+                if k.get("property") == res.prop or res.prop in k.get("also", []):
+                    res.known(k["signature"], "{} [model-level counterexample: obligation {} fails with {}=TRUE "
+                                              "on family {}]".format(k["what"], r_chk.violated, sw, name))
+    # sampled behaviours (schedules) of the model of the implementation as it is
+    r_sim, logs = C.model_check(progs, cur, async_sched, [], emit_logs=True, simulate=nsim, seed=res.seed + 1)
+    if r_sim.error:
+        raise MachineryError("unit {}: simulation failed: {}".format(name, r_sim.error[:1500]))
+    mism = []
+    nrun = 0
+    seen = set()
+    for p in progs:
+        for exp in logs.get(p["pid"], []):
+            expn = [C.norm_expected(e) for e in exp]
+            key = (p["pid"], tuple(e[1] for e in expn))
+            if key in seen:
+                continue
+            seen.add(key)
+            act, rt = C.run_impl(p, ic, schedule=_sched_of(expn, mode), mode=mode, rng=rng)
+            nrun += 1
+            if not C.same_log(expn, act):
+                mism.append({"pid": p["pid"], "prog": p, "log": act, "expected": expn})
+            elif len(res.samples) < 4 and nrun % 97 == 1:
+                res.samples.append({"unit": name, "program": p, "events": act[:60]})
+    if nrun == 0:
+        raise MachineryError("unit {}: no behaviour sampled".format(name))
+    res.traces += nrun
+    res.evaluations += nrun
+    ndiag = 0
+    if mism:
+        batch = mism[:200]
+        rv, verdicts = C.validate_traces(batch, cur, async_sched)
+        if rv.error:
+            raise MachineryError("trace validation failed: " + rv.error[:1500])
+        for it, vd in zip(batch, verdicts):
+            if vd is None:
+                raise MachineryError("no verdict for trace of program {}".format(it["pid"]))
+            ndiag += 1
+            if vd["verdict"] == "ok":
+                res.note("unit {}: a trace differs from the model's log but is accepted".format(name))
+                continue
+            if vd["verdict"] == "truncated":
+                clause, props = "exc.dropped", {"C11"}
+                vd = dict(vd, exp=["?"], act=["eot"])
+            else:
+                clause, props = attribute(vd, it["prog"])
+            what = "family {}: expected {} but the implementation did {} (event {} of program {}, schedule {})".format(
+                name, vd.get("exp"), vd.get("act"), vd.get("at"), it["pid"], "".join(str(e[1]) for e in it["log"]))
+            if res.prop in props:
+                res.violation(clause, what, {"signature": clause, "unit": name, "program": it["prog"],
+                                             "recorded": it["log"], "expected": it["expected"], "diagnosis": vd})
+            elif not props:
+                raise MachineryError("unclassified divergence ({}): {}".format(clause, what))
+            else:
+                res.note("nonconformance outside {} (clause={} -> {}) in unit {}".format(
+                    res.prop, clause, ",".join(sorted(props)), name))
+    res.add_unit(name, programs=len(progs), states=r_off.distinct, schedules_replayed=nrun, mismatches=len(mism),
+                 diagnosed=ndiag, mode=mode)
